@@ -187,7 +187,7 @@ fn specs() -> Vec<CheckSpec> {
     CheckSpec {
         id: "C13",
         profile: Profile::Rewards,
-        more_profiles: &[],
+        more_profiles: &[Profile::Lifecycle, Profile::Adaptive],
         mk: mk_c13,
         level: "exploration",
         rule: "HIST (1) after every landed instruction each touched dynamic tick array is walked from raw bytes (flag byte 0/1, 112 more bytes iff 1, bitmap bit i <=> slot i initialised, walk ends exactly at data_len = 148 + 112*popcount, rent exempt), Anchor's dynamic accessors (get_tick, get_next_init_tick_index both directions, off-spacing ticks) are compared with Anchor's fixed accessors on the decoded content and with the raw bytes for all 88 slots, and rent must only move between the position and its arrays; (2) twin runs: every seed is run three times with fixed / dynamic / mixed arrays and every transaction outcome plus the observable state after every transaction (token accounts, pool and position bytes, decoded tick contents) must be equal; a case is one (instruction, created/grown/shrunk/rewritten, #initialised, boundary slot) tuple or one twin comparison",
